@@ -301,6 +301,70 @@ def s_collateral(F, res):
         res.add([finding("S-COLLATERAL", key, where(b), "collateral candidates are not restricted to pure-lovelace UTxOs (the filter must keep exactly the UTxOs whose own assets are `is_only_naked()`)")])
 
 
+CA = "tx3_tir::model::assets::CanonicalAssets"
+
+
+def s_pure(F, res):
+    """S-PURE: `CanonicalAssets::is_only_naked` - the purity test S-COLLATERAL relies on - is a *universal* statement over the
+    entries whose per-entry verdict is "the class is the naked (lovelace) one".  Recognised shapes: `iter().all(p)` and the
+    iterator-driven loop that returns false on the first entry failing p and true when the entries run out; p's truth table
+    (E17, helpers inlined) must be true exactly under the `Naked` variant of the class.  An existential combinator
+    (`any` / `find` / `position`) or a predicate that is true for another variant is reported; another shape is not decided."""
+    from .. import truthtable
+    f0 = F.fns.get(CA + "::is_only_naked")
+    key = CA + "::is_only_naked|every entry is of the naked class"
+    if f0 is None:
+        res.add([assumption("S-PURE", key, "crates/tx3-tir/src/model/assets.rs", "is_only_naked not found under this name: not decided")])
+        return
+    w = where(f0)
+    ACLASS = "tx3_tir::model::assets::AssetClass"
+    adt = F.adt(ACLASS)
+    naked = [v["discr"] for v in adt["variants"] if not v["fields"]]
+    if len(naked) != 1:
+        res.add([assumption("S-PURE", key, w, "AssetClass no longer has exactly one payload-free variant: not decided")])
+        return
+
+    def want(t, callee):
+        return callee["crate"] == "tx3_tir" and not callee.get("impl_trait") and len(callee["blocks"]) <= 80
+
+    def pred_ok(g):
+        """None = not decided, True/False = the per-entry predicate is / is not `class is Naked`"""
+        body = mir.inline_calls(F, g, want=want, depth=2)
+        rows = truthtable.table(body)
+        if not rows or any(r[3] or r[2] is None for r in rows):
+            return None
+        seen_class = False
+        for a, ctx, r, op in rows:
+            cls = [c for c in ctx if c[0] == ACLASS]
+            if not cls:
+                return None
+            seen_class = True
+            is_naked = all(c[2] == naked[0] for c in cls)
+            if r != is_naked:
+                return False
+        return True if seen_class else None
+    universal = existential = None
+    for bi, t in mir.calls(f0):
+        c = t.get("callee") or ""
+        if c == "std::iter::Iterator::all":
+            universal = t
+        elif c in ("std::iter::Iterator::any", "std::iter::Iterator::find", "std::iter::Iterator::position", "std::iter::Iterator::find_map"):
+            existential = t
+    if existential is not None and universal is None:
+        res.add([finding("S-PURE", key, where(f0, existential["line"]), "is_only_naked is decided by `%s`: one naked entry is enough, so a UTxO holding lovelace *and* tokens counts as pure lovelace (collateral)" % (existential["callee"].split("::")[-1]))])
+        return
+    if universal is not None:
+        verdicts = [pred_ok(F.fns[fr]) for fr in universal.get("fnrefs") or () if fr in F.fns]
+        if verdicts and all(v is True for v in verdicts):
+            res.add([ok("S-PURE", key, w, "all(|(class, _)| class is Naked)")])
+        elif any(v is False for v in verdicts):
+            res.add([finding("S-PURE", key, w, "the per-entry test of is_only_naked is not `the class is Naked`: an entry of another class passes (or a naked one fails)")])
+        else:
+            res.add([assumption("S-PURE", key, w, "the per-entry predicate is outside the recognised fragment: not decided")])
+        return
+    res.add([assumption("S-PURE", key, w, "is_only_naked is not an `all(..)` over the entries: not decided")])
+
+
 def s_predicate(F, res, label=""):
     for p in sorted(F.fns):
         m = re.search(r"<tx3_resolver::inputs::select::(\w+)::(\w+) as tx3_resolver::inputs::select::CoinSelection>::(pick_single|pick_many)$", p)
@@ -582,6 +646,7 @@ _KEEP = []
 def run(ctx):
     F = ctx.F
     res = Result("C03")
+    res.rule("S-PURE", "is_only_naked holds exactly when every entry is of the naked class")
     res.rule("S-TOPUP", "where candidates are topped up from the wider set, the top-up is skipped only because the window is full")
     res.rule("F-CANDIDATES", "bounded candidate sets come from the intersection of the constraints only")
     res.rule("S-INCLUDE", "every stated constraint narrows the search space; canonicalisation drops none")
@@ -594,6 +659,7 @@ def run(ctx):
     f_candidates(F, res)
     s_include(F, res)
     s_collateral(F, res)
+    s_pure(F, res)
     s_predicate(F, res)
     s_trim(F, res)
     c04.s_fabricate(F, res)
